@@ -263,6 +263,17 @@ R17 = {
  "C18": "every float-to-score conversion of Ephred and Esolexa is saturated first (found and repaired a defect of the tree: Esolexa wrapped for probabilities within 2e-13 of 0 or 1)",
 }
 
+# Clauses added in round 19 (DESIGN.md §10.18).
+R19 = {
+ "C08": "closing a traceback segment does not depend on the score accumulated for it",
+ "C09": "closing a traceback segment does not depend on the score accumulated for it",
+ "C13": "the temporary directory is always removed with its contents",
+ "C14": "Clear resets every per-cycle field of the sorter the filter's hits go through",
+ "C15": "the complement strand is searched on a copy of the query",
+ "C18": "each saturation bound keeps the converted float inside the score type (and below the NaN score); the other scale's decode converts after removing the encoding's own offset",
+ "C19": "every division by the chunk size is guarded against the empty set",
+}
+
 NOT_APPLICABLE = {
 }
 
@@ -313,6 +324,10 @@ def main():
                 tech = tech + "; " + R17[pid]
                 text = text + " Round 17 (DESIGN §10.16) adds: " + R17[pid] + "."
                 ref = ref + ", §10.16"
+            if pid in R19:
+                tech = tech + "; " + R19[pid]
+                text = text + " Round 19 (DESIGN §10.18) adds: " + R19[pid] + "."
+                ref = ref + ", §10.18"
             text = text + " The thorough tier also replays the independently written behaviour-preserving refactorings of /verif/benign (DESIGN §10.8, §10.9, §10.11, §10.13, §10.15, §10.17) and fails if one of them is reported."
             checks.append({
                 "property_id": pid,
